@@ -12,6 +12,7 @@ from .. import spaces
 from ..engine import seq_iter, seq_shards
 
 ID = "C12"
+LEAN = True  # cases are distinct by construction; see engine.Acc
 RULE = (
     "every token sequence over a 16-token alphabet (words, 'and' in three cases, partial 'an'/'d', space/tab/newline, '~', ',', "
     "braces, backslash escapes) up to the length bound, plus every list of 1-4 catalogue names joined by every separator spelling; "
